@@ -10,7 +10,7 @@
     corr:*  the model (Sanction/Sanction.v) and the implementation disagree on an observable.
     prop:*  the property's own checker fails on the implementation's observations alone. *)
 From Coq Require Import ZArith NArith List String Bool.
-From PV Require Export Sanction.Sanction Corr.CorrBase.
+From PV Require Export Sanction.Sanction Sanction.Keys Corr.CorrBase.
 Import ListNotations.
 Open Scope string_scope.
 Open Scope list_scope.
@@ -23,6 +23,7 @@ Record obs := {
   o_temps : list entry;        (* TemporaryEntries listing *)
   o_live : list N;             (* proposals in deposit or voting period (gov keeper) *)
   o_pinfo : list (N * (bool * bool)); (* of each of those: (in voting period, expedited) *)
+  o_passed : list N;           (* proposals that left that set in this step with final status PASSED *)
   o_deps : list (N * amt2);    (* TotalDeposit of each of those proposals (denom A, denom B) *)
   o_bals : list (N * Z);       (* balances of the user accounts, denom A *)
   o_balsb : list (N * Z);      (* balances of the user accounts, denom B *)
@@ -103,13 +104,14 @@ Definition reg_msgs (reg : list (N * list msg)) (p : N) : list msg :=
   match find (fun e => N.eqb (fst e) p) reg with Some (_, ms) => ms | None => [] end.
 
 (** "A resolution cleans exactly its own entries": a temporary entry of a proposal that is still
-    live after the step may disappear only because a proposal naming its address was resolved in
-    this step (a PASSED proposal deletes every temporary entry of the addresses it names, by
-    design) or because a sanction message for its address was executed directly. *)
+    live after the step may disappear only because a proposal naming its address PASSED in this
+    step (a passed proposal deletes every temporary entry of the addresses it names, by design;
+    an expired, rejected or failed one deletes nothing but its own entries) or because a sanction
+    message for its address was executed directly. *)
 Definition others_kept (reg : list (N * list msg)) (prev : obs) (o : op) (ob : obs) : bool :=
-  let resolved := filter (fun p => negb (memN p (o_live ob))) (o_live prev) in
+  let passed := filter (fun p => memN p (o_passed ob)) (o_live prev) in
   let touched := match o with
-                 | ONewBlock _ _ => flat_map (fun p => msgs_addrs (reg_msgs reg p)) resolved
+                 | ONewBlock _ _ => flat_map (fun p => msgs_addrs (reg_msgs reg p)) passed
                  | ODirect true m => msgs_addrs [m]
                  | _ => []
                  end in
@@ -236,7 +238,45 @@ Definition check_route (name how : string) (sanctioned : bool) (before amt : Z) 
   tag (sanctioned || negb ((0 <? amt) && (amt <=? before)) || (ok && Z.eqb after (before - amt)))
       ("prop:unsanctioned account could not move its funds via " ++ w)%string.
 
+(** ** Store keys.  The key constructors of x/sanction/keeper/keys.go on one address and proposal
+    id, compared byte for byte with Sanction/Keys.v. *)
+Definition bytes_same (x y : bytes) : bool := bytes_eqb x y.
+
+Definition check_keys (addr : bytes) (pid : N) (pk tp tk ip ik : bytes) : list string :=
+  tag (bytes_same (perm_key addr) pk) "corr:CreateSanctionedAddrKey" ++
+  tag (bytes_same (temp_prefix addr) tp) "corr:CreateTemporaryAddrPrefix" ++
+  tag (bytes_same (temp_key addr pid) tk) "corr:CreateTemporaryKey" ++
+  tag (bytes_same (index_prefix pid) ip) "corr:CreateProposalTempIndexPrefix" ++
+  tag (bytes_same (index_key pid addr) ik) "corr:CreateProposalTempIndexKey" ++
+  tag (has_prefix tp tk && has_prefix ip ik) "prop:a key does not lie under its own prefix".
+
+(** ** Raw store.  The whole sanction store of the real app at the end of a history (keys with
+    the prefixes 0x01 / 0x02 / 0x03 and their one-byte values), the address bytes of the universe
+    with the IsSanctioned answer for each, and the TemporaryEntries listing (address bytes,
+    proposal id, value byte). *)
+Definition kv_in (k : bytes) (v : N) (st : list kv) : bool :=
+  existsb (fun e => bytes_eqb (fst e) k && N.eqb (snd e) v) st.
+
+Definition check_store (unsanctionable : list bytes) (addrs : list (bytes * bool)) (raw : list kv)
+           (listing : list (bytes * N * N)) : list string :=
+  let temps_raw := filter (fun e => N.eqb (hd 0%N (fst e)) 2) raw in
+  let index_raw := filter (fun e => N.eqb (hd 0%N (fst e)) 3) raw in
+  tag (forallb (fun x => Bool.eqb (is_sanctioned_bytes unsanctionable raw (fst x)) (snd x)) addrs)
+      "corr:IsSanctionedAddr on the raw store" ++
+  tag (forallb (fun e => let '(a, p, v) := e in kv_in (temp_key a p) v temps_raw) listing &&
+       Nat.eqb (List.length listing) (List.length temps_raw))
+      "corr:temporary keys of the raw store" ++
+  tag (forallb (fun e => let '(a, p, v) := e in kv_in (index_key p a) v index_raw) listing &&
+       Nat.eqb (List.length listing) (List.length index_raw))
+      "prop:proposal index and temporary entries of the store disagree" ++
+  tag (forallb (fun e => let '(a, p, _) := e in
+                         forallb (fun x => negb (has_prefix (temp_prefix (fst x)) (temp_key a p)) || bytes_eqb (fst x) a) addrs)
+               listing)
+      "prop:a temporary key lies under the prefix of another address".
+
 Inductive case :=
+| CKeys (addr : bytes) (pid : N) (pk tp tk ip ik : bytes)
+| CStore (unsanctionable : list bytes) (addrs : list (bytes * bool)) (raw : list kv) (listing : list (bytes * N * N))
 | CHist (c : config) (universe users : list N)
         (first_id : N) (t0 : Z) (ob0 : obs) (steps : list (op * obs))
 | CRoute (name how : string) (sanctioned : bool) (before amt : Z) (ok : bool) (after : Z)
@@ -244,6 +284,8 @@ Inductive case :=
 
 Definition check (k : case) : list string :=
   match k with
+  | CKeys addr pid pk tp tk ip ik => check_keys addr pid pk tp tk ip ik
+  | CStore un addrs raw listing => check_store un addrs raw listing
   | CHist c universe users first_id t0 ob0 steps =>
       let s0 := init (o_smin ob0) (o_umin ob0) first_id t0 (bal_of (o_bals ob0)) (bal_of (o_balsb ob0)) in
       match corr_checks c universe users s0 ob0 ++
